@@ -14,7 +14,8 @@ DEFAULT_ELEMENTS = ["e", "E", "H", "D", "He", "C", "N", "O", "F", "Na", "Mg", "A
 DEFAULT_PSEUDO = ["CR", "CRP", "XRAY", "Photon", "PHOTON", "CRPHOT", "X", "M", "p", "o", "m", "c-", "l-", "*", "g"]
 # mass numbers (protons + neutrons of the tabulated standard isotope), independent small table
 MASSNUM = {"H": 1, "D": 2, "He": 4, "C": 12, "N": 14, "O": 16, "F": 19, "Na": 23, "Mg": 24, "Al": 27, "Si": 28,
-           "P": 31, "S": 32, "Cl": 35, "Ar": 40, "Ca": 40, "Fe": 56, "Ni": 59}
+           "P": 31, "S": 32, "Cl": 35, "Ar": 40, "Ca": 40, "Fe": 56, "Ni": 59, "13C": 13, "18O": 18, "15N": 15}
+ISOTOPE_ELEMENTS = ["13C", "18O", "15N"]        # digit-leading element symbols a user list may add
 CHEM_ELEMENTS = ["H", "D", "He", "C", "N", "O", "Si", "S", "Mg", "Fe", "Na", "Cl"]
 PSEUDO_REACTANTS = ["CR", "CRP", "PHOTON", "Photon", "CRPHOT", "XRAY"]
 
